@@ -181,6 +181,137 @@ def judge(res, js, line, real, server_close=False, calls=(), meta=None):
             return fail('server-initiated close did not end gracefully', 'closing-then-graceful')
 
 
+SENDS = ('send_text', 'send_binary', 'send_ping', 'send_pong', 'send_json')
+
+
+def write_attempts(tk, spans):
+    """every attempt to write a WebSocket frame seen in the trace, successful or not:
+       (trace index, opcode | 'data' (a compressed data frame whose write failed: its bytes are not in the trace), payload | None,
+        failed?, made inside an application call?).  The upgrade request is not a frame and is left out."""
+    out = []
+    for i, t in enumerate(tk):
+        app = any(a <= i <= b for a, b, _k, _r, _w in spans)
+        if t.startswith('Z:'):
+            out.append((i, int(t.split(':')[1]), bytes.fromhex(t.split(':')[2]), False, app))
+        elif t.startswith(('W:', 'WF:')):
+            failed = t.startswith('WF:')
+            raw = bytes.fromhex(t.split(':', 1)[1])
+            if raw.startswith(b'GET '):
+                continue
+            if failed and not raw:
+                out.append((i, 'data', None, True, app)); continue
+            try:
+                f = decode_client_frames(raw)
+            except Exception:  # noqa
+                out.append((i, 'undecodable', None, failed, app)); continue
+            for g in f:
+                out.append((i, g['opcode'], bytes(g['payload']), failed, app))
+    return out
+
+
+def judge_fault(res, js, line, real, calls):
+    """oracle for histories in which ONE write fails (the socket reports an error for that sendall; how much of the data had gone
+    out is unknown to the client).  Rules written from the property text only:
+      F1  at most one attempt to write a Close frame per connection, and after that attempt (complete or not) no data frame and no
+          further Close is put on the wire ('at most one Close frame is written per connection and no data frame follows it');
+      F2  after the application's close() on a connected WebSocket (its one write attempt is exactly the Close frame with the given
+          code and reason, whether or not the socket took it) every later send raises a WebSocketError and writes nothing, and a
+          later close() writes nothing;
+      F3  server closes first (Closing yielded): sends are possible during that event only - every send after it raises a
+          WebSocketError and writes nothing; the echo, when attempted, is one Close with the same code/reason; and once the server
+          drops the connection (EOF) the history ends with a GRACEFUL Disconnected and a closed socket - also when the echo could
+          not be written because the server had already gone."""
+    tk = toks(real)
+    if not any(t.startswith('E:ready') for t in tk):
+        return
+    def fail(msg, cls):
+        res.failures.append(dict(cls=cls, what=msg + ' [history with one failing write: write #%s, errno %s]' % (js['wfail'], js.get('werrno')),
+                                 input=line[-1800:], scenario=js, observed=[t[:70] for t in tk[-14:]]))
+    spans = []
+    for pos, kind, result, wire in calls:
+        r = next((k for k in range(pos, len(tk)) if tk[k].startswith('R:')), len(tk))
+        spans.append((pos, r, kind, result, wire))
+    wr = write_attempts(tk, spans)
+    names = [t for t in tk if t.startswith('E:')]
+    DATA = (0, 1, 2, 'data')
+    # ---- F1
+    closes = [w for w in wr if w[1] == 8]
+    if closes:
+        c0 = closes[0]
+        seen_first = False
+        for w in wr:
+            if w is c0:
+                seen_first = True; continue
+            if not seen_first:
+                continue
+            if w[1] == 8:
+                return fail('a second Close frame was put on the wire (the first attempt %s)' % ('failed part-way: the stream is garbled' if c0[3] else 'succeeded'), 'two-closes')
+            if w[1] in DATA:
+                return fail('a data frame was put on the wire after the Close frame (whose write %s)' % ('failed' if c0[3] else 'succeeded'), 'data-after-close')
+    # ---- F2
+    def reason_bytes(r):
+        return bytes.fromhex(r[1]) if r[0] == 'b' else ''.join(chr(c) for c in r[1]).encode('utf-8', 'replace')
+    acts = [a for k in sorted(js['reactions'], key=int) for a in js['reactions'][k]]
+    client_close_at = None
+    for ai, (pos, end, kind, result, wire) in enumerate(spans):
+        act = acts[ai] if ai < len(acts) else None
+        before = tk[:pos]
+        up = any(t.startswith('E:connected') for t in before) and not any(t.startswith(('E:disconnected', 'E:closing', 'E:closed', 'E:rejected', 'E:protocol_error')) for t in before)
+        mine = [w for w in wr if pos <= w[0] <= end]
+        if kind == 'close' and client_close_at is None and up and act is not None and act[0] == 'close' and result in ('ok', 'TransportFail') \
+                and not any(w[1] == 8 and w[0] < pos for w in wr):
+            code, reason = act[1], act[2]
+            want = b'' if code is None else struct.pack('!H', code) + reason_bytes(reason)
+            if len(mine) != 1 or mine[0][1] != 8 or mine[0][2] != want:
+                return fail('close(%r, %r) on an open connection attempted %s instead of exactly one Close frame carrying the given code and reason'
+                            % (code, reason_bytes(reason)[:20], [(w[1], (w[2] or b'')[:12], 'failed' if w[3] else 'written') for w in mine]), 'close-frame-content')
+            client_close_at = pos
+            continue
+        if client_close_at is not None:
+            if kind in SENDS:
+                if mine:
+                    return fail('%s after the application\'s close() wrote to the socket' % kind, 'send-after-close')
+                if not result.startswith(('WebSocket', 'TransportFail')):
+                    return fail('%s after the application\'s close() returned %s instead of raising a WebSocketError' % (kind, result), 'send-after-close')
+            elif kind == 'close' and mine:
+                return fail('a second close() wrote to the socket again', 'two-closes')
+    # ---- F3
+    ci = next((i for i, t in enumerate(tk) if t.startswith('E:closing:')), None)
+    if ci is not None and not any(w[1] == 8 and w[0] < ci for w in wr):
+        _, _, code, reason = tk[ci].split(':')
+        end = ci + 1                      # first trace position after the application's handling of the Closing event
+        while True:
+            sp = next((s for s in spans if s[0] == end), None)
+            if sp is None:
+                break
+            end = sp[1] + 1
+        for pos, e2, kind, result, wire in spans:
+            if pos >= end and kind in SENDS:
+                mine = [w for w in wr if pos <= w[0] <= e2]
+                if mine:
+                    return fail('%s after the Closing event (server closed first) wrote to the socket' % kind, 'send-after-closing')
+                if not result.startswith(('WebSocket', 'TransportFail')):
+                    return fail('%s after the Closing event (server closed first) returned %s instead of raising a WebSocketError' % (kind, result), 'send-after-closing')
+        later_closes = [w for w in wr if w[0] > ci and w[1] == 8]
+        want = b'' if code == 'N' else struct.pack('!H', int(code)) + bytes.fromhex(reason)
+        for w in later_closes:
+            if not w[4] and w[2] != want:
+                return fail('echoed Close differs from the received code/reason', 'echo')
+        # how it ends: the only things that may stand in the way of a graceful end are a protocol violation by the server after its
+        # Close, a fault on some OTHER write after the Closing event, or a close timeout that is enabled and has elapsed
+        other_fault = any(w[3] and w[1] != 8 and w[0] > ci for w in wr)
+        perr = any(t.startswith('E:protocol_error') for t in tk[ci:])
+        elapsed = sum(st[1] for st in js['env'] if st[0] == 'wait')
+        timed = any(t.startswith('E:disconnected:close-timeout') for t in tk) and js['ctimeout'] != 0 and elapsed >= js['ctimeout']
+        eof = bool(js['env']) and js['env'][-1][0] == 'wait' and js['env'][-1][2] == ['eof']
+        if eof and not other_fault and not perr and not timed and 'HANG' not in tk:
+            if not names[-1].startswith('E:disconnected') or not names[-1].endswith(':1'):
+                return fail('the server closed first (Closing yielded%s) and then dropped the connection, but the history ends with %s instead of a graceful Disconnected'
+                            % (', the echo could not be written' if any(w[3] for w in later_closes) else '', names[-1]), 'closing-then-graceful')
+            if 'sock=1' in tk[-1]:
+                return fail('socket still open after the server-initiated close ended', 'closing-then-graceful')
+
+
 def explore(res, tier, seed, model_ok=True):
     import gencheck   # differential test of the translated code (Generated/Code.lean) against the original Python
     gencheck.run(res, 'C08', tier, seed, model_ok)
@@ -188,7 +319,7 @@ def explore(res, tier, seed, model_ok=True):
     n = 500 if tier == 'quick' else 8000
     res.rule = ('%d histories: handshake, 0-3 messages, application close() at a random event (incl. Connecting/Connected/Ready) with code/reason variants, 0-3 more messages, server Close (valid code, empty, with reason; in a quarter of the cases between the fragments of an unfinished text/binary message) or none, more frames, EOF; '
                 'application sends (text, binary, ping, second close) at random events; close_timeout 30 / 5 / disabled (given as None or as 0); permessage-deflate negotiated in 30%% (application data then goes through the compressed send path); oracle: wire opcode sequence, per-call results and event order judged by rules written from the property; '
-                'plus the same kind of history with one failing write (the application\'s Close, the echo, a data frame): correspondence only, the property is silent; non-trivial = history containing a close() call or a server Close; distinct by operation line') % n
+                'plus the same kind of history with one failing write (ECONNRESET / EPIPE on write #1..#6, or placed on the connection\'s Close frame - the application\'s or the echo, incl. server-first histories without any application close() - by a fault-free dry run): compared with the model and judged by oracle rules F1-F3 (one Close attempt and no data/Close after it; sends after close() / after the Closing event refused and write nothing; server-first close ends with a graceful Disconnected on EOF even when the echo could not be written); non-trivial = history containing a close() call or a server Close; distinct by operation line') % n
     scs = [make(rng) for _ in range(n)]
     pairs = coreutil.run_pairs(scs, model_ok)
     callrecs = runner.parallel_map('coreutil', 'real_one_calls', [p[0] for p in pairs])
@@ -202,26 +333,59 @@ def explore(res, tier, seed, model_ok=True):
         judge(res, js, line, real, sc.server_close, cr.get('calls', []) if isinstance(cr, dict) and cr.get('trace') == real else [], sc.meta)
     coreutil.check_corr(res, pairs)
     res.samples += [pairs[0][1][-300:], pairs[1][1][-300:]]
-    # the same histories with ONE transport fault: the write of a Close frame (the application's, or the echo of the server's) fails.
-    # The property is stated for fault-free histories, so no rule of the oracle applies; these runs are part of the correspondence
-    # only (what the closing state, later sends and the final Disconnected look like after a failed echo is fixed by the model:
-    # `close()` enters the closing state whether or not its frame could be written)
-    fscs = []
-    for k in range(60 if tier == 'quick' else 900):
+    # the same histories with ONE transport fault: one sendall fails (ECONNRESET or EPIPE).  Three ways of placing the fault:
+    #   random     - write #1..#6 of the connection (whatever that write is: a data frame, a pong, the application's Close, the echo)
+    #   on-close   - the write of the connection's Close frame (the application's own, or the echo of the server's), located by a
+    #                fault-free dry run of the same history on the code under test (only to PLACE the fault; nothing is judged by it);
+    #                in half of the histories the EOF follows the last frame at once, in the other half after 2 s of silence
+    #   on-echo    - like on-close, in a server-first history (server Close present, the application never calls close())
+    # Each run is compared with the model AND judged by `judge_fault` (rules F1-F3, written from the property text).
+    nf = 90 if tier == 'quick' else 1500
+    fscs, placing = [], []
+    for k in range(nf):
         sc = make(rng)
-        sc.wfail = {rng.choice([1, 1, 2, 3])}
+        sc.werrno = rng.choice([104, 104, 32])
+        mode = ('random', 'on-close', 'random')[k % 3] if k % 6 != 5 else 'on-echo'
+        if mode == 'on-echo':
+            # server-first histories: a server Close is present and the application itself never calls close(), so the
+            # connection's Close frame is the library's echo
+            while not sc.server_close:
+                sc = make(rng)
+            sc.werrno = rng.choice([104, 32, 32])
+            sc.reactions = {i: [a for a in acts if a[0] != 'close'] for i, acts in sc.reactions.items()}
+            sc.reactions = {i: acts for i, acts in sc.reactions.items() if acts}
+        sc.wfail = {rng.choice([1, 1, 2, 3, 3, 4, 5, 6])}
         if k % 2 == 0:
             sc.env = sc.env[:-1] + [('wait', 2, None), ('wait', 1, ('eof',))]
-        fscs.append(sc)
+        fscs.append(sc); placing.append(mode)
+    dry = [i for i, m in enumerate(placing) if m in ('on-close', 'on-echo')]
+    saved = [fscs[i].wfail for i in dry]
+    for i in dry:
+        fscs[i].wfail = set()
+    dry_traces = runner.parallel_map('coreutil', 'real_one', [coreutil.scenario_to_json(fscs[i]) for i in dry])
+    for i, old, tr in zip(dry, saved, dry_traces):
+        fscs[i].wfail = old
+        if isinstance(tr, str):
+            wtoks = [t for t in toks(tr) if t.startswith(('W:', 'Z:', 'WF:', 'W!'))]
+            pos = next((n for n, t in enumerate(wtoks) if t.startswith('W:88')), None)
+            if pos is not None:
+                fscs[i].wfail = {pos}
+            else:
+                placing[i] = 'random'
     fpairs = coreutil.run_pairs(fscs, model_ok)
-    for js, line, real, model in fpairs:
+    fcalls = runner.parallel_map('coreutil', 'real_one_calls', [p[0] for p in fpairs])
+    for (js, line, real, model), mode, cr in zip(fpairs, placing, fcalls):
         if isinstance(real, dict):
             res.crashes.append(real); continue
-        res.case(line, nontrivial='WF:' in real); res.count('one_write_fault_correspondence_only')
+        res.case(line, nontrivial='WF:' in real); res.count('one_write_fault_oracle_and_correspondence')
+        res.count('one_write_fault_placed_' + mode)
         if 'WF:88' in real:
             res.count('failed_close_frame_write')
+            if 'E:closing' in real:
+                res.count('failed_echo_of_server_close')
+        if isinstance(cr, dict) and cr.get('trace') == real:
+            judge_fault(res, js, line, real, cr.get('calls', []))
     coreutil.check_corr(res, fpairs)
-
 
 def replay(rp):
     return coreutil.replay_core(rp)
